@@ -127,6 +127,8 @@ def run(ctx):
     rp, seen, inv = panic_rule(ctx, chk, "C04", "P-no-reachable-panic", roots, floor=400)
     chk.analysed["reachable_functions"] = len([n for n in seen if n in F.fns])
     recursion_rule(ctx, chk, "C04", "S-no-recursion", seen)
+    from .. import loops
+    loops.loop_rule(ctx, chk, "C04", "T-loops-terminate", seen)
 
     # W: exactly one response write on every entry->return path of each per-connection function
     rw = chk.rule("W-one-response-per-path", "on every entry->return path of a per-connection function the transport is written exactly once", floor=2)
@@ -146,7 +148,15 @@ def run(ctx):
         cfg = cfg_of(fn)
         du = du_of(fn)
         g = guards_of(fn)
-        wblocks = [bid for bid, t in fn.calls() if t.get("callee") in WRITE_CALLS]
+        def is_write_call(t):
+            if t.get("callee") in WRITE_CALLS and not t.get("is_resolved"):
+                return True
+            c = callee_name(t)
+            if c in F.fns and c not in R.connection_fns and c != name:
+                sub = G.reachable([c], kinds=("call", "trait-cha"))
+                return any(x in R.transport_helpers and any((tt.get("callee") or "") in WRITE_CALLS and not tt.get("is_resolved") for _, tt in F.fns[x].calls()) for x in sub if x in F.fns)
+            return False
+        wblocks = [bid for bid, t in fn.calls() if is_write_call(t)]
         res = cfg.minmax_count(wblocks)
         ok_all = True
         for rb, (mn, mx) in sorted(res.items()):
@@ -166,13 +176,22 @@ def run(ctx):
         for wb in wblocks:
             t = cfg.blocks[wb]["term"]
             k += 1
-            buf = du.val_operand(t["args"][1]) if len(t["args"]) > 1 else ("unknown",)
-            prod = _producer(du, buf)
+            prod = None
+            cands = [t["args"][1]] if (t.get("callee") in WRITE_CALLS and len(t["args"]) > 1) else t["args"]
+            for a_ in cands:
+                pr = _producer(du, du.val_operand(a_))
+                if pr in (ctor400, "response::Response::generate_response"):
+                    prod = pr
+                elif prod is None:
+                    prod = pr
             # is this write dominated by the failure edge of a read / parse / execute result?
             dominated = None
             for e, f in fail_edges:
                 src = _root_producer(du, f[1])
-                if src and any(x in src for x in ("std::io::Read::read", "request::Request::parse", "application::Application::execute")) and cfg.edge_dominates(e, wb):
+                is_reader = src in F.fns and src not in R.connection_fns and any(
+                    x in R.transport_helpers and any((tt.get("callee") or "").startswith("std::io::Read::read") and not tt.get("is_resolved") for _, tt in F.fns[x].calls())
+                    for x in G.reachable([src], kinds=("call", "trait-cha")) if x in F.fns) if src else False
+                if src and (is_reader or any(x in src for x in ("std::io::Read::read", "request::Request::parse", "application::Application::execute"))) and cfg.edge_dominates(e, wb):
                     dominated = src
             want = ctor400 if dominated else "response::Response::generate_response"
             ok = prod == want
